@@ -92,10 +92,10 @@ def run(ctx):
                         "MMC device ids 1..127, plain commands 1..63 (0 is reserved); locate time code fields are any 7-bit bytes",
                         "corruptions of framing/header bytes (F0, ids, command, F7) are outside the property and only checked on the model (OnlyBuilt)"]
     ctx.model_check("MC_Sysex", "MC_Sysex.cfg" if q else "MC_Sysex_thorough.cfg", timeout=1500)
-    seeds = [ctx.seed] if q else [ctx.seed * 1000 + i for i in range(5)]
+    seeds = [ctx.seed] if q else [ctx.seed * 1000 + i for i in range(4)]
     recs = []
     for s in seeds:
-        part = _gen(ctx, s, 250 if q else 1500, 3000 if q else 40000)
+        part = _gen(ctx, s, 250 if q else 2000, 3000 if q else 25000)
         if recs:   # the exhaustive MMC table and the fixed boundary records are the same for every seed
             part = [r for r in part if r["ev"] != "mmc" and "boundary" not in r["feat"]]
         recs += part
@@ -128,7 +128,7 @@ def run(ctx):
         return ("loc", r["dev"], tuple(r["tc"]))
     ctx.count(len(recs) + ntried, [key(r) for r in recs],
               [{"ev": r["ev"], "addr": r["addr"], "payload_len": len(r["data"]), "req": r["req"], "built_tail": r["bytes"][-3:], "parse": r["pkind"],
-                "corruptions_tried": r["ntried"], "not_rejected": len(r["noterr"])} for r in sx[7:9]] +
+                "corruptions_tried": r["ntried"], "not_rejected": len(r["noterr"])} for r in sx[4:5] + sx[8:9]] +
               [{"ev": r["ev"], "dev": r["dev"], "cmd": r["cmd"], "tc": r["tc"], "built": r["bytes"], "parse": r["pkind"]}
                for r in ([x for x in recs if x["ev"] == "mmc"][:1] + [x for x in recs if x["ev"] == "loc"][-1:])])
 
